@@ -103,6 +103,15 @@ func (p *InstCore) PostProcessProperties(properties []*component_definition.Prop
 		return nil, err
 	}
 	switch p.PropsRet {
+	case "inplace":
+		// the xs[:0] idiom: keep every second property, compacting the list it was handed
+		out := properties[:0]
+		for i, x := range properties {
+			if i%2 == 1 {
+				out = append(out, x)
+			}
+		}
+		return out, nil
 	case "empty":
 		return []*component_definition.Property{}, nil
 	case "same":
